@@ -235,6 +235,11 @@ def run(ctx: RunCtx) -> None:
                     pclass = "well-known"
                 decision = ch.weighted([1, 3, 1], lab + ".auth")  # 0 accepted, 1 no credentials, 2 wrong credentials
                 headers = {"Content-Type": M.ARROW_CT} if body is not None else {}
+                # every caller of this run presents the SAME Authorization value; whether the callback accepts the request is
+                # decided by something else (X-Auth).  Anything that remembers a verdict per credential shows up as a
+                # rejected request that is dispatched after an accepted one.
+                if ch.choose(2, lab + ".authz") == 0:
+                    headers["Authorization"] = "Bearer shared-credential"
                 if decision == 0:
                     headers["X-Auth"] = "ok"
                 elif decision == 2:
